@@ -7,6 +7,15 @@ Stages
             orientations, and once as a one-ring mesh to TriangulateMesh / ProfileMesh.
   regions   TLC (RegionGen) enumerates outer rings with holes and an island inside a hole; the
             harness orients the rings as documented and runs TriangulateMesh and ProfileMesh.
+  shapes    hand-made rectilinear spirals / U / comb with long concave runs, every rotation and orientation.
+  sweep-ties  comb / Sigma outlines and regions with holes given in the frame in which TriangulateMesh sweeps
+            (the harness rotates them by +0.5037616150469717 rad): prong tips, a pair of notches or of extreme
+            hole vertices sit on one sweep line and are nudged off it by 1e-12 .. 1e-9 (both signs, seeded);
+            TriangulateMesh and ProfileMesh, judged on the integer skeleton (the nudges are far below the
+            margin of every strict predicate there).
+  large     simple integer polygons with 63 .. 130 vertices (flowers, stars, sawtooth combs; seeded) in both
+            vertex orders and from two starting vertices through Triangulate, TriangulateFace and ReadOFF,
+            and once as a clockwise ring through TriangulateMesh.
   V         TLC (PolygonJudge) evaluates the definition of a valid triangulation in exact integer
             arithmetic: input vertices only, inside, pairwise interior-disjoint, exact area,
             documented orientation, termination; extrusions closed / oriented / manifold with
@@ -287,7 +296,8 @@ def run(ctx):
     quick = ctx.tier == "quick"
     ctx.rule = ("every simple polygon with <= 6 vertices on a 3x3 grid in every rotation and both orientations (quick) plus a "
                 "seeded sample of the 4x4 / <= 5 polygons; thorough: every 4x4 / <= 6 polygon in 4 seeded variants; every "
-                "region outer ring x <= 1 (2) holes x island; non-trivial = every record (all inputs are valid polygons)")
+                "region outer ring x <= 1 (2) holes x island; comb / hole regions with vertices nearly aligned along the sweep line; "
+                "seeded polygons with 63 .. 130 vertices in both vertex orders; non-trivial = every record (all inputs are valid polygons)")
     ctx.assumptions = ["integer vertex coordinates: all predicates are exact integer arithmetic in TLC",
                        "TriangulateFace rebuilds coordinates from a 2-D basis: outputs are matched to input vertices with 1e-9",
                        "degenerate (zero-area) output triangles are accepted: they have no interior"]
